@@ -109,7 +109,9 @@ def run_mutant(m, repo, worker, only_prop=None):
         return {"id": m["id"], "status": "not-applicable", "why": why}
     try:
         props = ["C%02d" % i for i in range(1, 21)] if m["property"] == "*" else [m["property"]] + list(m.get("also", []))
-        if only_prop:
+        if only_prop == "*":
+            props = ["C%02d" % i for i in range(1, 21)]
+        elif only_prop:
             props = [only_prop]
         res = analyse_tree(tree, props, worker)
     except RuntimeError as e:
@@ -126,32 +128,38 @@ def run_mutant(m, repo, worker, only_prop=None):
     else:
         real = [x for x in fired if x["reason"] not in ("engine-error",)]
         status = "caught" if real else "MISSED"
+        if not real and m.get("expect") == "miss":
+            status = "missed-as-documented"   # a confirmed change no structural clause decides (kept for honesty, see DESIGN 9.9)
         if real and m.get("rules"):
             want = set(m["rules"])
             if not any(x["rule"] in want or x["rule"].rstrip("abcdef") in want for x in real):
                 status = "caught-by-other-rule"
-    return {"id": m["id"], "property": m["property"], "status": status, "fired": fired[:6], "desc": m.get("desc", "")}
+    return {"id": m["id"], "property": m["property"], "status": status, "fired": fired[:40], "desc": m.get("desc", "")}
+
+
+def _job(args):
+    m, repo, only_prop = args
+    import multiprocessing
+    ident = multiprocessing.current_process()._identity
+    w = (ident[0] - 1) if ident else 0
+    t0 = time.time()
+    try:
+        r = run_mutant(m, repo, w, only_prop)
+        if os.environ.get("VERIF_SELFTEST_PROGRESS"):
+            sys.stderr.write("done %s %.1fs %s\n" % (m["id"], time.time() - t0, r.get("status")))
+        return r
+    except Exception:
+        import traceback
+        return {"id": m["id"], "status": "error", "why": traceback.format_exc()[-600:]}
 
 
 def run_all(mutants, repo="/repo", workers=8, only_prop=None):
+    """one process per worker (the rule evaluation is CPU-bound Python; threads would serialise on the GIL)."""
     os.makedirs(ROOT, exist_ok=True)
-    import queue
-    q = queue.Queue()
-    for i in range(workers):
-        q.put(i)
-
-    def job(m):
-        w = q.get()
-        try:
-            return run_mutant(m, repo, w, only_prop)
-        except Exception as e:
-            import traceback
-            return {"id": m["id"], "status": "error", "why": traceback.format_exc()[-600:]}
-        finally:
-            q.put(w)
-
-    with ThreadPoolExecutor(max_workers=workers) as ex:
-        res = list(ex.map(job, mutants))
+    import multiprocessing
+    ctxm = multiprocessing.get_context("fork")
+    with ctxm.Pool(processes=max(1, workers)) as pool:
+        res = pool.map(_job, [(m, repo, only_prop) for m in mutants], chunksize=1)
     return res
 
 
@@ -185,6 +193,7 @@ if __name__ == "__main__":
     ap.add_argument("--prop")
     ap.add_argument("--workers", type=int, default=8)
     ap.add_argument("--keep", action="store_true")
+    ap.add_argument("--all-props", action="store_true", help="evaluate every property's rules on each mutant (which property sees it?)")
     ap.add_argument("--json")
     a = ap.parse_args()
     ms = load_mutants()
@@ -193,9 +202,9 @@ if __name__ == "__main__":
     if a.ids:
         ms = [m for m in ms if m["id"] in a.ids]
     t0 = time.time()
-    res = run_all(ms, workers=a.workers)
+    res = run_all(ms, workers=a.workers, only_prop="*" if a.all_props else None)
     for r in res:
-        print("%-8s %-22s %s" % (r["id"], r["status"], r.get("why", "") or "; ".join("%s[%s]" % (x["rule"], x["instance"]) for x in r.get("fired", []))))
+        print("%-8s %-22s %s" % (r["id"], r["status"], r.get("why", "") or "; ".join(sorted({"%s%s[%s]" % ((x["property"] + ":") if a.all_props else "", x["rule"], x["instance"]) for x in r.get("fired", [])}))))
     print("%.1fs" % (time.time() - t0))
     if a.json:
         json.dump(res, open(a.json, "w"), indent=1)
